@@ -10,173 +10,181 @@ use vh_lite::{read_cases, drive, drive_group, quiet_panics, Out};
 
 mod tc_right__pari;
 mod tc_left__run;
-mod tc_left__runpar;
-mod tc_left__strpar;
-mod tc_nonlin__ren;
-mod mutual__to;
-mod mutual__redecl;
-mod mutual__str;
-mod scc_chain__perm1;
-mod diamond__par;
-mod repeated__perm1;
-mod three_dyn__par;
-mod three_dyn__str;
-mod conds__pari;
-mod conds__init;
-mod expr_args__par;
-mod multi_head__par;
-mod facts__ser;
-mod facts__src2;
-mod facts__permpar;
-mod opt_cols__mrt;
-mod opt_cols__srcpar;
-mod same_gen__topar;
-mod not_reorderable__ser;
-mod two_inputs__run;
-mod two_inputs__runpar;
-mod two_inputs__strpar;
-mod ternary__perm2;
-mod bound_mix__pari;
-mod join_chain__ser;
-mod join_chain__u64;
-mod reach__to;
-mod lag_right__ser;
-mod lag_right__permpar;
-mod lag_left__topar;
-mod lag_mid__pari;
-mod lag_late_delta__ser;
-mod sp_dual__to;
-mod sp_dual__redecl;
-mod sp_weighted__ser;
-mod longest_capped__to;
-mod set_reach__mrt;
-mod set_reach__srcpar;
-mod cp__pari;
-mod lex_lat__pari;
-mod lat_multi_improve__par;
-mod count_paths__par;
-mod count_paths__src1;
+mod tc_left__init;
+mod tc_left__u64;
+mod tc_nonlin__perm2;
+mod mutual__pari;
+mod mutual__src2;
+mod mutual__ren;
+mod scc_chain__to;
+mod scc_chain__strpar;
+mod repeated__par;
+mod repeated__strpar;
+mod three_dyn__ren;
+mod conds__ser;
+mod conds__src2;
+mod conds__ren;
+mod count_up__to;
+mod multi_head__perm2;
+mod facts__gen;
+mod facts__srcpar;
+mod opt_cols__ser;
+mod opt_cols__src2;
+mod cartesian__pari;
+mod same_gen__ren;
+mod two_inputs__ser;
+mod two_inputs__src0;
+mod two_inputs__perm1;
+mod wild__par;
+mod ternary__permpar;
+mod bound_mix__perm2;
+mod join_chain__pari;
+mod cond_simple_join__ser;
+mod zero_arity__ser;
+mod lag_right__pari;
+mod lag_right__u64;
+mod lag_three__par;
+mod lag_mid__perm2;
+mod lag_late_delta__pari;
+mod multi_head_rec__exp;
+mod sp_dual__mrt;
+mod sp_dual__runpar;
+mod sp_weighted__pari;
+mod set_reach__ser;
+mod set_reach__src0;
+mod bset__ser;
+mod cp__to;
+mod bool_lat__ser;
+mod lat_multi_improve__pari;
+mod lat_input__pari;
+mod lat_input__src2;
+mod count_paths__pari;
+mod count_paths__src2;
 mod neg_basic__pari;
 mod neg_basic__src2;
-mod neg_basic__permpar;
-mod agg_depth__pari;
-mod agg_user__ser;
-mod agg_bound_mix__ser;
-mod agg_empty_rel__ser;
-mod agg_const_args__exp;
-mod disj__mrt;
-mod disj__srcpar;
-mod disj_nested__par;
-mod pat_args__exppar;
-mod multi_head_disj__pari;
-mod mac_basic__ser;
-mod mac_basic__src0;
-mod mac_basic__exppar;
-mod mac_nested__pari;
-mod mac_disj__ser;
-mod rnd_core_02__ser;
-mod rnd_core_04__pari;
-mod rnd_core_07__par;
-mod rnd_core_10__ser;
-mod rnd_core_12__pari;
-mod rnd_core_15__par;
-mod rnd_core_18__ser;
-mod rnd_core_20__pari;
-mod rnd_core_23__par;
-mod rnd_core_26__ser;
-mod rnd_core_28__pari;
-mod rnd_agg_01__par;
-mod rnd_agg_04__ser;
-mod rnd_agg_06__pari;
-mod rnd_agg_09__par;
-mod rnd_agg_12__ser;
-mod rnd_agg_14__pari;
+mod neg_basic__ren;
+mod agg_depth__par;
+mod agg_lattice__topar;
+mod neg_rec_after__exppar;
+mod agg_empty__topar;
+mod agg_const_args__pari;
+mod disj__run;
+mod disj__init;
+mod disj__exppar;
+mod pat_args__pari;
+mod multi_head_disj__ser;
+mod neg_in_disj__exp;
+mod mac_basic__mrt;
+mod mac_basic__runpar;
+mod mac_capture__exppar;
+mod mac_gensym_disj__pari;
+mod rnd_core_01__ser;
+mod rnd_core_03__pari;
+mod rnd_core_06__par;
+mod rnd_core_09__ser;
+mod rnd_core_11__pari;
+mod rnd_core_14__par;
+mod rnd_core_17__ser;
+mod rnd_core_19__pari;
+mod rnd_core_22__par;
+mod rnd_core_25__ser;
+mod rnd_core_27__pari;
+mod rnd_core_30__par;
+mod rnd_agg_03__ser;
+mod rnd_agg_05__pari;
+mod rnd_agg_08__par;
+mod rnd_agg_11__ser;
+mod rnd_agg_13__pari;
 
 fn lookup(name: &str) -> fn() -> Box<dyn Driven> {
    match name {
       "tc_right__pari" => tc_right__pari::make,
       "tc_left__run" => tc_left__run::make,
-      "tc_left__runpar" => tc_left__runpar::make,
-      "tc_left__strpar" => tc_left__strpar::make,
-      "tc_nonlin__ren" => tc_nonlin__ren::make,
-      "mutual__to" => mutual__to::make,
-      "mutual__redecl" => mutual__redecl::make,
-      "mutual__str" => mutual__str::make,
-      "scc_chain__perm1" => scc_chain__perm1::make,
-      "diamond__par" => diamond__par::make,
-      "repeated__perm1" => repeated__perm1::make,
-      "three_dyn__par" => three_dyn__par::make,
-      "three_dyn__str" => three_dyn__str::make,
-      "conds__pari" => conds__pari::make,
-      "conds__init" => conds__init::make,
-      "expr_args__par" => expr_args__par::make,
-      "multi_head__par" => multi_head__par::make,
-      "facts__ser" => facts__ser::make,
-      "facts__src2" => facts__src2::make,
-      "facts__permpar" => facts__permpar::make,
-      "opt_cols__mrt" => opt_cols__mrt::make,
-      "opt_cols__srcpar" => opt_cols__srcpar::make,
-      "same_gen__topar" => same_gen__topar::make,
-      "not_reorderable__ser" => not_reorderable__ser::make,
-      "two_inputs__run" => two_inputs__run::make,
-      "two_inputs__runpar" => two_inputs__runpar::make,
-      "two_inputs__strpar" => two_inputs__strpar::make,
-      "ternary__perm2" => ternary__perm2::make,
-      "bound_mix__pari" => bound_mix__pari::make,
-      "join_chain__ser" => join_chain__ser::make,
-      "join_chain__u64" => join_chain__u64::make,
-      "reach__to" => reach__to::make,
-      "lag_right__ser" => lag_right__ser::make,
-      "lag_right__permpar" => lag_right__permpar::make,
-      "lag_left__topar" => lag_left__topar::make,
-      "lag_mid__pari" => lag_mid__pari::make,
-      "lag_late_delta__ser" => lag_late_delta__ser::make,
-      "sp_dual__to" => sp_dual__to::make,
-      "sp_dual__redecl" => sp_dual__redecl::make,
-      "sp_weighted__ser" => sp_weighted__ser::make,
-      "longest_capped__to" => longest_capped__to::make,
-      "set_reach__mrt" => set_reach__mrt::make,
-      "set_reach__srcpar" => set_reach__srcpar::make,
-      "cp__pari" => cp__pari::make,
-      "lex_lat__pari" => lex_lat__pari::make,
-      "lat_multi_improve__par" => lat_multi_improve__par::make,
-      "count_paths__par" => count_paths__par::make,
-      "count_paths__src1" => count_paths__src1::make,
+      "tc_left__init" => tc_left__init::make,
+      "tc_left__u64" => tc_left__u64::make,
+      "tc_nonlin__perm2" => tc_nonlin__perm2::make,
+      "mutual__pari" => mutual__pari::make,
+      "mutual__src2" => mutual__src2::make,
+      "mutual__ren" => mutual__ren::make,
+      "scc_chain__to" => scc_chain__to::make,
+      "scc_chain__strpar" => scc_chain__strpar::make,
+      "repeated__par" => repeated__par::make,
+      "repeated__strpar" => repeated__strpar::make,
+      "three_dyn__ren" => three_dyn__ren::make,
+      "conds__ser" => conds__ser::make,
+      "conds__src2" => conds__src2::make,
+      "conds__ren" => conds__ren::make,
+      "count_up__to" => count_up__to::make,
+      "multi_head__perm2" => multi_head__perm2::make,
+      "facts__gen" => facts__gen::make,
+      "facts__srcpar" => facts__srcpar::make,
+      "opt_cols__ser" => opt_cols__ser::make,
+      "opt_cols__src2" => opt_cols__src2::make,
+      "cartesian__pari" => cartesian__pari::make,
+      "same_gen__ren" => same_gen__ren::make,
+      "two_inputs__ser" => two_inputs__ser::make,
+      "two_inputs__src0" => two_inputs__src0::make,
+      "two_inputs__perm1" => two_inputs__perm1::make,
+      "wild__par" => wild__par::make,
+      "ternary__permpar" => ternary__permpar::make,
+      "bound_mix__perm2" => bound_mix__perm2::make,
+      "join_chain__pari" => join_chain__pari::make,
+      "cond_simple_join__ser" => cond_simple_join__ser::make,
+      "zero_arity__ser" => zero_arity__ser::make,
+      "lag_right__pari" => lag_right__pari::make,
+      "lag_right__u64" => lag_right__u64::make,
+      "lag_three__par" => lag_three__par::make,
+      "lag_mid__perm2" => lag_mid__perm2::make,
+      "lag_late_delta__pari" => lag_late_delta__pari::make,
+      "multi_head_rec__exp" => multi_head_rec__exp::make,
+      "sp_dual__mrt" => sp_dual__mrt::make,
+      "sp_dual__runpar" => sp_dual__runpar::make,
+      "sp_weighted__pari" => sp_weighted__pari::make,
+      "set_reach__ser" => set_reach__ser::make,
+      "set_reach__src0" => set_reach__src0::make,
+      "bset__ser" => bset__ser::make,
+      "cp__to" => cp__to::make,
+      "bool_lat__ser" => bool_lat__ser::make,
+      "lat_multi_improve__pari" => lat_multi_improve__pari::make,
+      "lat_input__pari" => lat_input__pari::make,
+      "lat_input__src2" => lat_input__src2::make,
+      "count_paths__pari" => count_paths__pari::make,
+      "count_paths__src2" => count_paths__src2::make,
       "neg_basic__pari" => neg_basic__pari::make,
       "neg_basic__src2" => neg_basic__src2::make,
-      "neg_basic__permpar" => neg_basic__permpar::make,
-      "agg_depth__pari" => agg_depth__pari::make,
-      "agg_user__ser" => agg_user__ser::make,
-      "agg_bound_mix__ser" => agg_bound_mix__ser::make,
-      "agg_empty_rel__ser" => agg_empty_rel__ser::make,
-      "agg_const_args__exp" => agg_const_args__exp::make,
-      "disj__mrt" => disj__mrt::make,
-      "disj__srcpar" => disj__srcpar::make,
-      "disj_nested__par" => disj_nested__par::make,
-      "pat_args__exppar" => pat_args__exppar::make,
-      "multi_head_disj__pari" => multi_head_disj__pari::make,
-      "mac_basic__ser" => mac_basic__ser::make,
-      "mac_basic__src0" => mac_basic__src0::make,
-      "mac_basic__exppar" => mac_basic__exppar::make,
-      "mac_nested__pari" => mac_nested__pari::make,
-      "mac_disj__ser" => mac_disj__ser::make,
-      "rnd_core_02__ser" => rnd_core_02__ser::make,
-      "rnd_core_04__pari" => rnd_core_04__pari::make,
-      "rnd_core_07__par" => rnd_core_07__par::make,
-      "rnd_core_10__ser" => rnd_core_10__ser::make,
-      "rnd_core_12__pari" => rnd_core_12__pari::make,
-      "rnd_core_15__par" => rnd_core_15__par::make,
-      "rnd_core_18__ser" => rnd_core_18__ser::make,
-      "rnd_core_20__pari" => rnd_core_20__pari::make,
-      "rnd_core_23__par" => rnd_core_23__par::make,
-      "rnd_core_26__ser" => rnd_core_26__ser::make,
-      "rnd_core_28__pari" => rnd_core_28__pari::make,
-      "rnd_agg_01__par" => rnd_agg_01__par::make,
-      "rnd_agg_04__ser" => rnd_agg_04__ser::make,
-      "rnd_agg_06__pari" => rnd_agg_06__pari::make,
-      "rnd_agg_09__par" => rnd_agg_09__par::make,
-      "rnd_agg_12__ser" => rnd_agg_12__ser::make,
-      "rnd_agg_14__pari" => rnd_agg_14__pari::make,
+      "neg_basic__ren" => neg_basic__ren::make,
+      "agg_depth__par" => agg_depth__par::make,
+      "agg_lattice__topar" => agg_lattice__topar::make,
+      "neg_rec_after__exppar" => neg_rec_after__exppar::make,
+      "agg_empty__topar" => agg_empty__topar::make,
+      "agg_const_args__pari" => agg_const_args__pari::make,
+      "disj__run" => disj__run::make,
+      "disj__init" => disj__init::make,
+      "disj__exppar" => disj__exppar::make,
+      "pat_args__pari" => pat_args__pari::make,
+      "multi_head_disj__ser" => multi_head_disj__ser::make,
+      "neg_in_disj__exp" => neg_in_disj__exp::make,
+      "mac_basic__mrt" => mac_basic__mrt::make,
+      "mac_basic__runpar" => mac_basic__runpar::make,
+      "mac_capture__exppar" => mac_capture__exppar::make,
+      "mac_gensym_disj__pari" => mac_gensym_disj__pari::make,
+      "rnd_core_01__ser" => rnd_core_01__ser::make,
+      "rnd_core_03__pari" => rnd_core_03__pari::make,
+      "rnd_core_06__par" => rnd_core_06__par::make,
+      "rnd_core_09__ser" => rnd_core_09__ser::make,
+      "rnd_core_11__pari" => rnd_core_11__pari::make,
+      "rnd_core_14__par" => rnd_core_14__par::make,
+      "rnd_core_17__ser" => rnd_core_17__ser::make,
+      "rnd_core_19__pari" => rnd_core_19__pari::make,
+      "rnd_core_22__par" => rnd_core_22__par::make,
+      "rnd_core_25__ser" => rnd_core_25__ser::make,
+      "rnd_core_27__pari" => rnd_core_27__pari::make,
+      "rnd_core_30__par" => rnd_core_30__par::make,
+      "rnd_agg_03__ser" => rnd_agg_03__ser::make,
+      "rnd_agg_05__pari" => rnd_agg_05__pari::make,
+      "rnd_agg_08__par" => rnd_agg_08__par::make,
+      "rnd_agg_11__ser" => rnd_agg_11__ser::make,
+      "rnd_agg_13__pari" => rnd_agg_13__pari::make,
       _ => panic!("no such program variant in this shard: {}", name),
    }
 }
